@@ -380,8 +380,16 @@ class Prop(object):
     def run_all_impl(self, cases):
         if self.PARALLEL and len(cases) > 8:
             ctx = mp.get_context('fork')
-            with ctx.Pool(min(self.PARALLEL, os.cpu_count() or 1)) as pool:
-                return pool.map(_impl_worker, [(self, c) for c in cases], chunksize=max(1, len(cases) // (self.PARALLEL * 8)))
+            # the workers are forked from a parent that may hold tens of thousands of cases and results: keep its objects out
+            # of the children's garbage collections (a full collection there touches - and so copies - the whole shared heap)
+            import gc
+            gc.collect()
+            gc.freeze()
+            try:
+                with ctx.Pool(min(self.PARALLEL, os.cpu_count() or 1)) as pool:
+                    return pool.map(_impl_worker, [(self, c) for c in cases], chunksize=max(1, len(cases) // (self.PARALLEL * 8)))
+            finally:
+                gc.unfreeze()
         return [_impl_worker((self, c)) for c in cases]
 
     def run_all_model(self, cases):
@@ -399,8 +407,21 @@ class Hang(BaseException):
     code under test it is an interrupt-style exception arriving where it blocks; harnesses record it like any other outcome"""
 
 
+_WD = {'n': 0, 'cpu': 0.0, 'pos': None}
+
+
 def _on_alarm(signum, frame):
-    raise Hang('no progress for the case watchdog period')
+    """the case timer fired.  Time alone proves nothing here (a collection of the big heap a forked worker shares with its parent,
+    or a clock step of the sandbox, can make one period pass in an instant): the case counts as blocked only when two alarms in a
+    row find the main thread at the very same instruction with (almost) no CPU time used by the process in between"""
+    cpu = time.process_time()
+    pos = (id(frame), frame.f_lasti) if frame is not None else None
+    if _WD['n'] >= 1 and pos == _WD['pos'] and cpu - _WD['cpu'] < 0.5:
+        _WD['n'] = 0
+        raise Hang('the case made no progress for two watchdog periods (same instruction, no CPU time used)')
+    _WD['n'] += 1
+    _WD['cpu'] = cpu
+    _WD['pos'] = pos
 
 
 def _impl_worker(args):
@@ -410,6 +431,7 @@ def _impl_worker(args):
     try:
         if watchdog and threading.current_thread() is threading.main_thread():
             signal.signal(signal.SIGALRM, _on_alarm)
+            _WD['n'] = 0
             signal.setitimer(signal.ITIMER_REAL, watchdog, watchdog)     # (repeats: a case may block more than once)
             armed = True
         return prop.run_impl(case)
